@@ -127,7 +127,7 @@ def observe(case, sp=0, unsorted=None):
             if o['k'] == 'm':
                 return {'k': 'm', 'v': [[r[i] for i in unsorted] for r in o['v']]}
             if o['k'] == 'f':
-                return dict(o, c=[o['c'][i] for i in unsorted], v=[[r[i] for i in unsorted] for r in o['v']])
+                return dict(o, c=[o['c'][i] for i in unsorted] if o['c'] else [], v=[[r[i] for i in unsorted] for r in o['v']])
             return o
         y0, x0 = perm(y0), perm(x0)
     spa, spy, spx = SPELLINGS[sp % len(SPELLINGS)]
